@@ -133,8 +133,8 @@ Print Assumptions c38_full_statement_refuted.
     accLabels[""] that load() does not rebuild; no getter shows it (the theorem above covers all
     getters), but a later SetLabel(other, "") is refused before the reload and accepted after it. *)
 Theorem c38_note_reload_not_bisimilar :
-  let ops := [OImport N "x" "A1" "02a1" 1 0 "P-256" default_scrypt "pw" 1%N;
-              OImport N "y" "A2" "02a2" 1 0 "P-256" default_scrypt "pw" 2%N;
+  let ops := [OImport N "x" "A1" "02a1" 1 0 "P-256" "" false default_scrypt "pw" 1%N;
+              OImport N "y" "A2" "02a2" 1 0 "P-256" "" true default_scrypt "pw" 2%N;
               OSetLabel N "A1" ""] in
   let w := fst (fst (irun default_scrypt ops)) in
   history_in_finding_class N iblob ienc idec (init iblob default_scrypt) ops = false /\
@@ -151,7 +151,7 @@ Local Open Scope N_scope.
 Definition nv_ops : list (op N) :=
   [ ONew N "one" 1 "pw1" {| ki_key := 11; ki_addr := "A1"; ki_pub := "02a1"; ki_alg := 0; ki_curve := "P-256" |};
     ONew N "two" 9 "pw2" {| ki_key := 12; ki_addr := "A2"; ki_pub := "02a2"; ki_alg := 1; ki_curve := "sm2p256v1" |};
-    OImport N "two" "A3" "02a3" 10 2 "" default_scrypt "pw3" 13;
+    OImport N "two" "A3" "02a3" 10 2 "" "sha256" true default_scrypt "pw3" 13;
     OSetLabel N "A1" "first";
     OSetDefault N "A2";
     OChangePwd N "A2" "pw2" "new2";
